@@ -732,8 +732,8 @@ func schedules(c *vf.Ctx, shapes []shape) {
 				return
 			}
 			pre, dat := maxPre, 1
-			if !(h[0] == "ValidateBlock" && h[1] == "ApplyBlock") {
-				pre = 1 // the second preemption (thorough) is spent on the validate/apply pair; measured: ~250k executions per shape
+			if !(h[0] == "ValidateBlock" && h[1] == "ApplyBlock") || strings.Contains(s.name, "renewal") {
+				pre = 1 // the second preemption (thorough) is spent on the validate/apply pair of the first four shapes; measured: ~250k executions per shape
 			}
 			if len(h) > 2 {
 				pre = vf.Pick(c, 1, 1)
